@@ -10,11 +10,15 @@ Futures are the same operation state machines as the blocking forms, moved only 
 abstract state.
 
 * `C06_poll_pending_only_when_stuck` — the model answers `pending` only in a state where the future is
-  unfinished and cannot take a step;
+  unfinished and cannot take a step, or — wake-ONE — for a future that is already registered and polled
+  again while the wake-up for every unit it could take may sit with another registered future of the same
+  direction (`wakeHeld`: at least as many other live, registered, enabled futures as free slots / items);
 * `C06_no_wake_only_when_disabled` — the model admits "no wake-up since the last poll" (`wakes f => n:0`)
   for a future that was polled and is still pending only if that future is *disabled* (no possible step
-  under the exact window): a pending, enabled, unwoken future is not explainable, i.e. it is reported as
-  `pending-enabled-not-woken` (F2, F14-async, F18 in the code as it stands);
+  under the exact window), or its wake-up may sit with another registered future (`wakeHeld`, as above), or
+  an operation of another thread is still in flight (`busy`: the notification is the last step of the
+  enabling operation).  A pending, enabled, unwoken future outside these cases is not explainable, i.e. it
+  is reported as `pending-enabled-not-woken` (F2, F14-async, F18 in the code as it stands);
 * `C06_checker_sound_quiescent` — soundness of the checker for liveness in safety form, with futures:
   an accepted history that ended in a deadlock has a linearization in whose final state no operation
   that never returned is finished or can move;
@@ -33,7 +37,8 @@ model produces that tag; it is kept to avoid a pass over every operation here.) 
 theorem C06_poll_pending_only_when_stuck {fl : Flavour} {cfg : Cfg} {x x' : StF} {t f : Nat}
     (h : (x', PF.fin { tag := .pending }) ∈ microF fl cfg x (.poll f, .polling t f)) :
     ∃ e, findF x.futs f = some e ∧
-      ((e.p.out? = none ∧ micro fl cfg x.s e.p = []) ∨ ∃ o, e.p.out? = some o ∧ (observe e.op o).tag = .pending) := by
+      ((e.p.out? = none ∧ micro fl cfg x.s e.p = []) ∨ (∃ o, e.p.out? = some o ∧ (observe e.op o).tag = .pending) ∨
+        (e.polled = true ∧ wakeHeld fl cfg x e = true)) := by
   simp only [microF] at h
   split at h
   · simp at h
@@ -42,23 +47,30 @@ theorem C06_poll_pending_only_when_stuck {fl : Flavour} {cfg : Cfg} {x x' : StF}
     split at h
     · rename_i o ho
       simp only [mem_singleton, Prod.mk.injEq, PF.fin.injEq] at h
-      right
+      right; left
       exact ⟨o, ho, by rw [← h.2]⟩
     · rename_i ho
-      left
-      refine ⟨ho, ?_⟩
       split at h
       · rename_i hemp
-        simpa [List.isEmpty_iff] using hemp
-      · simp only [mem_map, Prod.mk.injEq] at h
-        obtain ⟨_, _, _, hbad⟩ := h
-        cases hbad
+        left
+        exact ⟨ho, by simpa [List.isEmpty_iff] using hemp⟩
+      · rw [mem_append] at h
+        rcases h with h | h
+        · simp only [mem_map, Prod.mk.injEq] at h
+          obtain ⟨_, _, _, hbad⟩ := h
+          cases hbad
+        · split at h
+          · rename_i hc
+            right; right
+            simpa using hc
+          · simp at h
 
 /-- "No wake-up since the last poll" is admitted for a polled, unresolved future only if it is disabled
 (unfinished and without a step under the exact window). -/
 theorem C06_no_wake_only_when_disabled {fl : Flavour} {cfg : Cfg} (hw : cfg.wakeRule = true) {x x' : StF} {t f : Nat}
     (h : (x', PF.fin { tag := .ok, val := .b false }) ∈ microF fl cfg x (.wakes f, .start t)) :
-    ∃ e, findF x.futs f = some e ∧ (e.done = true ∨ e.polled = false ∨ stuckFut fl cfg x.s e = true) := by
+    ∃ e, findF x.futs f = some e ∧ (e.done = true ∨ e.polled = false ∨ stuckFut fl cfg x.s e = true ∨
+      wakeHeld fl cfg x e = true ∨ x.busy > 0) := by
   simp only [microF] at h
   split at h
   · simp at h
@@ -69,11 +81,13 @@ theorem C06_no_wake_only_when_disabled {fl : Flavour} {cfg : Cfg} (hw : cfg.wake
     · have := h.2; simp [Res.mk.injEq] at this
     · split at h
       · rename_i hc
-        simp only [hw, Bool.not_true, Bool.false_or, Bool.or_eq_true, Bool.not_eq_true'] at hc
-        rcases hc with (hc | hc) | hc
+        simp only [noWakeOk, hw, Bool.not_true, Bool.false_or, Bool.or_eq_true, Bool.not_eq_true', decide_eq_true_eq] at hc
+        rcases hc with (((hc | hc) | hc) | hc) | hc
         · exact Or.inl hc
         · exact Or.inr (Or.inl hc)
-        · exact Or.inr (Or.inr hc)
+        · exact Or.inr (Or.inr (Or.inl hc))
+        · exact Or.inr (Or.inr (Or.inr (Or.inl hc)))
+        · exact Or.inr (Or.inr (Or.inr (Or.inr hc)))
       · simp at h
 
 /-- **Soundness of the checker for liveness (safety form), with futures.** -/
